@@ -193,6 +193,29 @@ func runSchnorr(c *vf.Check, g *groups.G, ki int) {
 			if ml > 0 && schnorr.Verify(g.Group, pub, msg[:ml-1], sig) == nil {
 				x.Failf(pk+"/msg-truncated-accepted", "signature verifies for a truncated message (%s)", id)
 			}
+			// structured alterations: negated response, negated commitment, negated key, R and S of another signature
+			pl := g.Group.PointLen()
+			if len(sig) == pl+g.Group.ScalarLen() {
+				R, S := g.Point(), g.Scalar()
+				if R.UnmarshalBinary(sig[:pl]) == nil && S.UnmarshalBinary(sig[pl:]) == nil {
+					nS, _ := g.Scalar().Neg(S).MarshalBinary()
+					nR, _ := g.Point().Neg(R).MarshalBinary()
+					for nm, mut := range map[string][]byte{
+						"S negated":       append(append([]byte{}, sig[:pl]...), nS...),
+						"R negated":       append(append([]byte{}, nR...), sig[pl:]...),
+						"R and S negated": append(append([]byte{}, nR...), nS...),
+					} {
+						c.Eval(1)
+						// (judged by bytes: a negation that leaves the encoding unchanged - S = 0, R of order <= 2 - is no alteration)
+						if !bytes.Equal(mut, sig) && schnorr.Verify(g.Group, pub, msg, mut) == nil {
+							x.Failf(pk+"/sig-altered-accepted", "signature with %s is accepted (%s)", nm, id)
+						}
+					}
+					if schnorr.Verify(g.Group, g.Point().Neg(pub), msg, sig) == nil && !g.Point().Neg(pub).Equal(pub) {
+						x.Failf(pk+"/other-key-accepted", "signature verifies under the negated key (%s)", id)
+					}
+				}
+			}
 			// another key
 			other := g.Point().Mul(alpha.ToScalar(g.Scalar(), new(big.Int).Add(key.V, big.NewInt(1)), q), nil)
 			if schnorr.Verify(g.Group, other, msg, sig) == nil {
@@ -255,6 +278,19 @@ func runSmallOrder(c *vf.Check, which int) {
 						}
 						// differential: whatever kyber accepts, crypto/ed25519 must accept too (vacuous when kyber rejects)
 					}
+				}
+			}
+			// key-independent forgery for a small-order key alone: R = k*B, S = k satisfies S*B = R + h*A whenever
+			// h*A = O (always for the identity, with probability 1/order otherwise): R is an ordinary point here
+			kb := alpha.ToScalar(ed.Scalar(), alpha.Rand("c08-so-k", groups.OrderEd25519), groups.OrderEd25519)
+			Rb, _ := ed.Point().Mul(kb, nil).MarshalBinary()
+			Sb, _ := kb.MarshalBinary()
+			for mi := 0; mi < 64; mi++ {
+				msg := []byte(fmt.Sprintf("small-order key message %d", mi))
+				c.Eval(1)
+				if verify(unhex(A), msg, append(append([]byte{}, Rb...), Sb...)) == nil {
+					x.Failf(pk+"/accepted", "A=%s with R=k*B, S=k, msg=%q is accepted (small-order / non-canonical public key)", A, msg)
+					return
 				}
 			}
 			// a valid signature, R or A then replaced by each small-order encoding
